@@ -46,6 +46,9 @@ pub fn summary_props(sum: &J, cp: i64) -> Vec<(u32, Vec<u8>)> {
     let langs: Vec<String> = sum["languages"]["l"].as_array().cloned().unwrap_or_default().iter().map(|x| x.to_string()).collect();
     if let Some(raw) = sum.get("template_raw").and_then(|r| r.as_str()) {
         out.push((7, enc_str(raw)));
+    } else if arch.is_some() && langs.is_empty() {
+        // a template that names the platform only: other tools write it without the separator
+        out.push((7, enc_str(&arch.unwrap_or_default())));
     } else if arch.is_some() || !langs.is_empty() {
         out.push((7, enc_str(&format!("{};{}", arch.unwrap_or_default(), langs.join(",")))));
     }
